@@ -14,7 +14,14 @@ import (
 	vs "git.torproject.org/pluggable-transports/snowflake.git/v2/verifvs"
 )
 
-var c02Fps = []string{"", fpB2, fpAbsent, fpB3, fpDefault, fpB4}
+var c02Fps = []string{"", fpB2, fpAbsent, fpB3, fpDefault, fpB4, fpB2 + "0", fpDefault + "zz", fpB2 + " "}
+
+// c02Unlisted: a fingerprint that names no bridge of the list: well formed but absent, or a listed one with
+// junk behind it (not a fingerprint at all).  A client naming it is never matched.
+func c02Unlisted(fp string) bool {
+	return fp == fpAbsent || (len(fp) > 40 && (strings.HasPrefix(fp, fpB2) || strings.HasPrefix(fp, fpDefault)))
+}
+
 var c02Beh = []int{ansPrompt, ansDuplicate, ansUnknownID, ansNever, ansLate}
 
 func expectedURL(c *clientRec) string {
@@ -74,7 +81,7 @@ func checkRouting(x *vs.X, w *world) {
 		if !c.done {
 			continue
 		}
-		if c.fp == fpAbsent && c.via != viaLegacy {
+		if c02Unlisted(c.fp) && c.via != viaLegacy {
 			if c.answer != "" {
 				x.Fail("absent-bridge", "absent-bridge-answered", "client c%d named an absent bridge but got answer %q", c.idx, c.answer)
 			}
